@@ -48,24 +48,25 @@ type vEnv struct {
 	points   int
 	badPoint bool // a required point whose only candidates are its own holder was chosen
 	// wrapping (C03)
-	wrapNode              int
-	wrapEarly, wrapAfter  bool
-	sameWrapper           bool
-	equalContent          bool // distinct wrapper objects with equal contents
-	prewire, prewired     bool
-	panicFaults           bool // injected faults panic instead of returning an error
-	wrappers              []*vWrap
-	earlyServed           []int
-	populatedBeforeChecks bool
-	fixed                 [][4][]int // pre-drawn graph (C10: the same graph is started twice)
-	lookupMode            bool       // a component's Init may look another component up through the factory
-	lookupOf              []int      // per node: -2 not decided, -1 none, else target
-	lookupGot             []any
-	userProcFalse         bool // a user processor may answer false in PostProcessAfterInstantiation
-	replaceNode           int  // component replaced before instantiation (-1 = none)
-	replacement           *vWrap
-	initOK                []bool // the component's last creation attempt ran its Init to a successful end
-	regOrder              []int
+	wrapNode               int
+	wrapEarly, wrapAfter   bool
+	sameWrapper            bool
+	equalContent           bool // distinct wrapper objects with equal contents
+	prewire, prewired      bool
+	panicFaults            bool // injected faults panic instead of returning an error
+	nilEarly, nilEarlyUsed bool // the early-reference callback answers (nil, nil) when it has nothing to substitute
+	wrappers               []*vWrap
+	earlyServed            []int
+	populatedBeforeChecks  bool
+	fixed                  [][4][]int // pre-drawn graph (C10: the same graph is started twice)
+	lookupMode             bool       // a component's Init may look another component up through the factory
+	lookupOf               []int      // per node: -2 not decided, -1 none, else target
+	lookupGot              []any
+	userProcFalse          bool // a user processor may answer false in PostProcessAfterInstantiation
+	replaceNode            int  // component replaced before instantiation (-1 = none)
+	replacement            *vWrap
+	initOK                 []bool // the component's last creation attempt ran its Init to a successful end
+	regOrder               []int
 }
 
 func (e *vEnv) ev(kind, node int) { e.log = append(e.log, vEvent{kind, node}) }
@@ -333,6 +334,11 @@ func (p *vProc) GetEarlyBeanReference(c any, name string) (any, error) {
 	}
 	if e.wrapEarly && v.idx == e.wrapNode {
 		return p.wrap(c), nil
+	}
+	if e.nilEarly {
+		// "nothing to substitute", as a processor may answer from the before/after-initialization callbacks
+		e.nilEarlyUsed = true
+		return nil, nil
 	}
 	return c, nil
 }
@@ -618,6 +624,7 @@ func VerifC03() {
 		e.equalContent = nd.Bool()
 	}
 	e.prewire = nd.Bool()
+	e.nilEarly = nd.Bool()
 	e.lookupMode = nd.Param("LOOKUP", 0) == 1
 	if nd.Param("REPLACE", 0) == 1 && nd.Bool() {
 		e.replaceNode = nd.Choose(n)
@@ -636,6 +643,9 @@ func VerifC03() {
 	}
 	if e.prewired {
 		nd.Cover("a point wired by hand with the component itself")
+	}
+	if e.nilEarlyUsed {
+		nd.Cover("early-reference callback answered nil")
 	}
 	selfKnown := false
 	if len(e.wrappers) > 1 {
